@@ -22,6 +22,11 @@ def kindOfName (s : String) : Option Nat :=
   (List.range 16).find? fun k => Packet.kindName k == s
 
 def parseNat? (s : String) : Option Nat := s.toNat?
+/-- Go `vbint(v)` for `v int`: a negative argument converts to `2^64 - |v|` (`vbint` is a 64-bit `uint`) -/
+def parseIntAsUint? (s : String) : Option Nat :=
+  if s.startsWith "-" then
+    ((s.drop 1).toString.toNat?).bind fun k => if 0 < k ∧ k ≤ 9223372036854775808 then some (18446744073709551616 - k) else none
+  else s.toNat?
 def parseBool? (s : String) : Option Bool :=
   if s == "true" then some true else if s == "false" then some false else none
 def parseU8? (s : String) : Option UInt8 := (parseNat? s).bind fun n => if n < 256 then some n.toUInt8 else none
@@ -84,7 +89,7 @@ def parseSetOp (slots : Slots) (name : String) (args : List String) : Option Set
   | "AddSubscriptionID", [v] => (parseU32? v).map .addSubscriptionID
   | "SetContentType", [v] => (bytesOfHex v).map .setContentType
   | "SetPayload", [v] => (bytesOfHex v).map .setPayload
-  | "SetSubscriptionID", [v] => (parseNat? v).map .setSubscriptionID
+  | "SetSubscriptionID", [v] => (parseIntAsUint? v).map .setSubscriptionID
   | "AddFilters", fs => (parseFilters fs).map .addFilters
   | "AddReasonCode", [v] => (parseU8? v).map .addReasonCode
   | "AddFilter", [v] => (bytesOfHex v).map .addFilter
